@@ -1,6 +1,7 @@
 import HmfVerif.Model.CacheIO
 import HmfVerif.Model.RegistryIO
 import HmfVerif.Model.HeapIO
+import HmfVerif.Model.FunctionalIO
 /-! Driver: one request per line on stdin, one canonical answer per line on stdout. -/
 
 def dispatch (line : String) : String :=
@@ -8,6 +9,7 @@ def dispatch (line : String) : String :=
   if line.startsWith "ENV " then Hmf.IO.handle line
   else if line.startsWith "REG " || line.startsWith "PARAMS " then Hmf.Reg.IO.handle line
   else if line.startsWith "HEAP " then Hmf.Heap.IO.handle line
+  else if line.startsWith "COMBOS " || line.startsWith "ORDER " then Hmf.Fn.IO.handle line
   else "bad-request"
 
 partial def loop (h : IO.FS.Stream) (out : IO.FS.Stream) : IO Unit := do
